@@ -32,6 +32,15 @@ Theorem C09_std_allocator_covers_request : forall sT aT c, 1 <= lc_count c ->
 Proof. exact std_covers. Qed.
 Print Assumptions C09_std_allocator_covers_request.
 
+(* allocators that define only the node functions -- memory_resource_allocator over any memory resource --: through the
+   allocator traits (and hence through std_allocator, deleters, every wrapper) an array reaches the resource as ONE node
+   request for exactly count * size bytes at the requested alignment, a node request unchanged; the release repeats it *)
+Theorem C09_node_only_allocators_get_arrays_as_one_node : forall c,
+  lc_kind (through WNodeOnly c) = KNode /\ lc_size (through WNodeOnly c) = bytes_of c /\ lc_align (through WNodeOnly c) = lc_align c /\
+  lc_leaf (through WNodeOnly c) = lc_leaf c.
+Proof. exact node_only_covers. Qed.
+Print Assumptions C09_node_only_allocators_get_arrays_as_one_node.
+
 (* what reaches the leaf is a function of the user's request alone: the release repeats leaf, kind, count, size and alignment *)
 Theorem C09_release_repeats_the_request : forall ws c1 c2, c1 = c2 -> forward ws c1 = forward ws c2.
 Proof. exact release_matches. Qed.
